@@ -387,12 +387,16 @@ func execA(spec string) (res engine.Result) {
 		}
 	}
 
-	// the signature carries only the most specific special ingredient of the call, and only for the
-	// failure kinds it can explain (a wrong binding / a rejected valid call)
+	// the signature names the call's special ingredient only where it can explain the failure: an unknown
+	// key named like one of the function's own parameters (wrong binding), a call without arguments (rejected call)
 	sig := func(kind string) string {
 		s := "A via=" + via + " kind=" + kind
-		if strings.HasPrefix(kind, "wrong-binding") || strings.HasPrefix(kind, "valid-call-rejected") || kind == "go-fault" {
-			s += " call=" + primaryFeature(feats)
+		pf := primaryFeature(feats)
+		switch {
+		case strings.HasPrefix(pf, "unknown-key-named-like-") && (strings.HasPrefix(kind, "wrong-binding") || strings.HasPrefix(kind, "valid-call-rejected") || kind == "go-fault"):
+			s += " call=" + pf
+		case pf == "no-args" && strings.HasPrefix(kind, "valid-call-rejected"):
+			s += " call=no-args"
 		}
 		return s
 	}
